@@ -331,7 +331,7 @@ def gen_case(rnd, ctx, maxmut):
         ctx.count("registration:lazy-default")
     if deferred:
         add(["Reg"])
-        if (len(items) >= 2 and len(first[0]) == 1 and first[0][0] in (3, 5)        # (Dict links: corpus trigger, a finding)
+        if (len(items) >= 2 and len(first[0]) == 1 and first[0][0] in (3, 4, 5)     # Dict links too (finding deferred-lazy-dict-default, fixed in 9ec28e7)
                 and not any(f in (3, 4, 5) for it in items[1:] for f in it[0]) and rnd.random() < 0.5):
             # deferred registration, then the first (container) link's default WITH content is created by the first
             # read: the notification old = Uninitialized must hook the items
@@ -438,19 +438,21 @@ def corpus():
         ops += [["Unreg"]] + [["Probe", o] for o in range(11)] + [["SetRef", 0, 1, 11], ["Probe", 11]]
         cs.append(dict(npool=18, root=0, items=text_items, legacy=legacy_text(text_items), graphs=l2g(text_items),
                        ops=ops))
-    # finding: a DEFERRED registration through a Dict link whose default (a _name_default method) has content and is
-    # created by a later read: ListenerItem._register_dict installs its re-hooking handlers with dispatch=self.dispatch,
-    # whose wrapper drops notifications with old = Uninitialized, so the values of the new dict are never hooked
+    # former finding (fixed in /repo 9ec28e7; the case keeps its name, so a regression is reported under the old keys):
+    # a DEFERRED registration through a Dict link whose default (a _name_default method) has content and is created
+    # by a later read; ListenerItem._register_dict used to install its re-hooking handlers with dispatch=self.dispatch,
+    # whose wrapper drops notifications with old = Uninitialized, so the values of the new dict were never hooked
     it = [[[4], "."], [[0], "."]]
     cs.append(dict(npool=18, root=0, items=it, legacy=legacy_text(it), graphs=l2g(it), deferred=True,
                    name="deferred-lazy-dict-default",
                    ops=[["Reg"], ["Probe", 1], ["TouchItems", 0, 4, [["a", 1]]], ["Probe", 1]]))
     # fourth wave, pinned: a DEFERRED registration through a List / Set link whose default has content and is
-    # created by a later read (the Dict form is the finding above)
-    for f in (3, 5):
+    # created by a later read (List, Dict and Set alike)
+    for f in (3, 4, 5):
         it = [[[f], "."], [[0], "."]]
         cs.append(dict(npool=18, root=0, items=it, legacy=legacy_text(it), graphs=l2g(it), deferred=True,
-                       ops=[["Reg"], ["Probe", 1], ["TouchItems", 0, f, [1, 2]], ["Probe", 1], ["Probe", 2],
+                       ops=[["Reg"], ["Probe", 1], ["TouchItems", 0, f, [["a", 1], ["b", 2]] if f == 4 else [1, 2]],
+                            ["Probe", 1], ["Probe", 2],
                             ["Unreg"], ["Probe", 1], ["Probe", 2]]))
     # record-like objects with a value-based __eq__: kids[0] = a fresh object EQUAL to the one it replaces
     it = [[[3], "."], [[0], "."]]
